@@ -120,9 +120,10 @@ class BuiltinMixin:
 
     def bi_get_args(self, node, st):
         def fn(s, v):
-            a = s.new_tuple(fresh("ga_items", IV), fresh("ga_len", I))
-            s.assume(s.t_len(a) >= 0)
-            return [Res(s, SV(vref(a), TUP(ANY)))]
+            gi, gl = fresh("ga_items", IV), fresh("ga_len", I)
+            a = s.new_tuple(gi, gl)
+            s.assume(gl >= 0)
+            return [Res(s, SV(vref(a), TUP(ANY), (gi, gl)))]
         return self._simple(node, st, fn)
 
     def bi_hasattr(self, node, st):
@@ -288,10 +289,11 @@ class BuiltinMixin:
                 return [Res(s, SV(vref(a), TUP(x.ty.args[0])))]
             if k == "any":
                 # tuple(<unknown iterable>): arbitrary finite sequence (assumption: iterating it has no side effects)
-                a = s.new_tuple(fresh("tp_items", IV), fresh("tp_len", I))
-                s.assume(s.t_len(a) >= 0)
+                tpi, tpl = fresh("tp_items", IV), fresh("tp_len", I)
+                a = s.new_tuple(tpi, tpl)
+                s.assume(tpl >= 0)
                 s.uses.add("AX-ITER-PURE")
-                res = SV(vref(a), TUP(ANY))
+                res = SV(vref(a), TUP(ANY), (tpi, tpl))
                 s.ghost.setdefault("tuple_of", []).append((x, res))
                 return [Res(s, res)]
             if k == "emptytuple":
